@@ -4,6 +4,7 @@ S_pp_pd == <<<<"ping", "ping">>, <<"ping", "drop">>>>
 S_pd_pd == <<<<"ping", "drop">>, <<"ping", "drop">>>>
 S_cpd_d == <<<<"clone", "ping", "drop", "drop">>, <<"drop">>>>
 S_p_p_p == <<<<"ping">>, <<"ping">>, <<"ping", "drop">>>>
+S_p_p   == <<<<"ping">>, <<"ping", "drop">>>>
 S_ppp   == <<<<"ping", "ping", "ping", "drop">>>>
 \* one line per complete behaviour: the schedule (thread ids, without the final un-interleaved phase) and the events
 PrintSched == (RecordHist /\ Done) => PrintT(<<"SCHED", ToJson([scripts |-> Scripts, ndisp |-> NDisp, sched |-> sched, hist |-> hist])>>)
